@@ -20,7 +20,7 @@ TOPO = {
                    target={'bd_trough': 'bd_plunger', 'bd_plunger': 'pf', 'bd_lock': 'bd_plunger'}, cap='MCCap2', tgt='MCTarget2'),
     'balls3': dict(switches={'bd_trough': ['s_t1', 's_t2', 's_t3'], 'bd_plunger': ['s_plunger'], 'bd_lock': ['s_lock1', 's_lock2']},
                    target={'bd_trough': 'bd_plunger', 'bd_plunger': 'pf', 'bd_lock': 'bd_plunger'}, cap='MCCap3', tgt='MCTarget3',
-                   confirm={'bd_lock': 's_lock_confirm'}),
+                   confirm={'bd_lock': 's_lock_confirm'}, att='MCAtt3'),
     # the lock counts by an entrance switch and holds what it gets (ball_hold); released on request
     'balls4': dict(switches={'bd_trough': ['s_t1', 's_t2', 's_t3'], 'bd_plunger': ['s_plunger'], 'bd_lock': []},
                    target={'bd_trough': 'bd_plunger', 'bd_plunger': 'pf', 'bd_lock': 'pf'}, cap='MCCap4', tgt='MCTarget4',
@@ -275,6 +275,12 @@ def exec_schedule(job):
                 '_tb': traceback.format_exc()[-2000:]}
 
 
+def _mk_broken(w, dname):
+    def hnd(**kwargs):
+        w.log(op='broken', d=dname)
+    return hnd
+
+
 def _exec(sched, seed, topo):
     rnd = random.Random(seed)
     h = _boot(topo)
@@ -288,6 +294,9 @@ def _exec(sched, seed, topo):
             elif s['op'] == 'noleave':
                 outcomes[s['d']].append('noleave')
         w = World(h, outcomes, ev, topo)
+        for dname in DEVS:
+            # a device reporting itself broken is a step of the trace
+            m.events.add_handler('balldevice_%s_broken' % dname, _mk_broken(w, dname))
         for cname, dev in COIL.items():
             drv = m.coils[cname].hw_driver
             orig = drv.pulse
@@ -307,7 +316,7 @@ def _exec(sched, seed, topo):
             idle = all(m.ball_devices[d].state == 'idle' for d in DEVS)
             held = sum(len(w.at(d)) for d in w.HOLDING if d not in TOPO[topo].get('sourcing', []))
             w.log(op='rest', known=int(m.ball_controller.num_balls_known), idle=bool(idle), pending=pending,
-                  states=[str(m.ball_devices[d].state) for d in DEVS], _over=len(w.at('pf')) - min(w.want, 3 - held),
+                  states=[str(m.ball_devices[d].state) for d in DEVS], devs=list(DEVS), _over=len(w.at('pf')) - min(w.want, 3 - held),
                   _phys=dict({d: len(w.at(d)) for d in DEVS}, pf=len(w.at('pf'))),
                   _late=len([1 for e in ev if e['op'] == 'leave' and e.get('kind') == 'late']))
 
@@ -374,10 +383,11 @@ CONSTANTS
   Sourcing = {%s}
   EntranceCounted = {%s}
   Saved = %s
+  MaxAtt <- %s
   MaxOps = %d
 %sCHECK_DEADLOCK FALSE
 """ % (spec, t['cap'], t['tgt'], ', '.join('"%s"' % d for d in t.get('holding', [])), ', '.join('"%s"' % d for d in t.get('sourcing', [])),
-       ', '.join('"%s"' % d for d in t.get('entrance', {})), 'TRUE' if t.get('game') else 'FALSE', maxops, extra)
+       ', '.join('"%s"' % d for d in t.get('entrance', {})), 'TRUE' if t.get('game') else 'FALSE', t.get('att', 'MCNoAtt'), maxops, extra)
 
 
 def handmade():
@@ -408,6 +418,10 @@ def handmade():
         # (holding lock feeding the launcher) all balls out, two get held, a further request can only come from the hold
         [R, R, R, AF(S, 'arrive', 'pf'), S, R, D, D],
         [R, R, R, AF(S, 'arrive', 'pf'), D, S, R, R, D],
+        # the trough runs out of attempts (where max_eject_attempts is configured): three failures in a row
+        [R, N('bd_trough'), N('bd_trough'), N('bd_trough'), R, D],
+        [R, L('bd_trough', 'back'), N('bd_trough'), L('bd_trough', 'back'), R],
+        [R, L('bd_trough', 'ok'), L('bd_plunger', 'ok'), R, N('bd_trough'), L('bd_trough', 'back'), N('bd_trough'), D],
         # late arrivals: the ball reaches its target only after the eject timeout
         [R, L('bd_trough', 'late'), R, D, D],
         [R, L('bd_trough', 'ok'), L('bd_plunger', 'late'), R, L('bd_trough', 'late'), D, D],
